@@ -1343,8 +1343,100 @@ def is_proper_prefix(data, full):
     return len(data) < len(full.rstrip()) and full.startswith(data)
 
 
+def metaedit_scenarios(ctx, out):
+    """After a FAILED load the dynamic metamodel is edited legally in a way that keeps the names old documents
+    use but changes what they mean (an attribute replaced by a same-named one of another type, a reference by a
+    same-named one typed by another class); a document that is valid for the NEW metamodel, asked for in a fresh
+    resource set, must load exactly as in a twin history (fresh metamodel objects, same edit) without the failed
+    load before it."""
+    common.use_repo()
+    from pyecore.ecore import EPackage, EClass, EAttribute, EReference, EString, EInt
+    from pyecore.resources import ResourceSet, URI
+    from pyecore.resources.json import JsonResource
+    rng = common.rng_for(ctx.seed, 'C18:metaedit')
+    scratch = os.path.join(common.BUILD, 'scratch')
+    os.makedirs(scratch, exist_ok=True)
+    n = 0
+    for k in range(8 if ctx.tier == 'quick' else 40):
+        hist = {'format': rng.choice(['xmi', 'json']), 'bad': rng.choice(['unknown-attribute', 'ill-typed-literal']),
+                'edit': rng.choice(['attribute-type', 'attribute-type', 'reference-type']), 'k': k}
+        fmt = hist['format']
+        ns = f'http://verif/c18/metaedit/{k}'
+        case = {'scenario': 'metaedit', 'seed': ctx.seed, 'tier': ctx.tier, 'history': hist}
+
+        def history(with_failure, d):
+            P = EPackage('p', nsURI=ns, nsPrefix='p')
+            A, B = EClass('A'), EClass('B')
+            A.eStructuralFeatures.extend([EAttribute('name', EString), EAttribute('n', EInt),
+                                          EReference('kids', A, upper=-1, containment=True),
+                                          EReference('others', B, upper=-1, containment=True),
+                                          EReference('ref', A)])
+            B.eStructuralFeatures.append(EAttribute('name', EString))
+            P.eClassifiers.extend([A, B])
+
+            def rset():
+                rs = ResourceSet()
+                rs.resource_factory['json'] = lambda uri, **kw: JsonResource(uri, **kw)
+                rs.metamodel_registry[ns] = P
+                return rs
+            extra = ' zz="1"' if hist['bad'] == 'unknown-attribute' else ' n="notanumber"'
+            jextra = '"zz": 1' if hist['bad'] == 'unknown-attribute' else '"n": "notanumber"'
+            if fmt == 'xmi':
+                bad = (f'<p:A xmlns:xmi="{XMI_NS}" xmlns:p="{ns}" xmi:version="2.0" name="x" ref="//@kids.0">'
+                       f'<kids name="y"/><kids name="z"{extra}/></p:A>')
+                good = (f'<p:A xmlns:xmi="{XMI_NS}" xmlns:p="{ns}" xmi:version="2.0" name="7" ref="//@others.0">'
+                        '<others name="b"/></p:A>') if hist['edit'] == 'reference-type' else \
+                    f'<p:A xmlns:xmi="{XMI_NS}" xmlns:p="{ns}" xmi:version="2.0" name="7"><kids name="8"/></p:A>'
+            else:
+                bad = ('{"eClass": "%s#//A", "name": "x", "ref": {"$ref": "//@kids.0"}, "kids": [{"name": "y"}, '
+                       '{"name": "z", %s}]}' % (ns, jextra))
+                good = ('{"eClass": "%s#//A", "name": "7", "ref": {"$ref": "//@others.0"}, "others": [{"name": "b"}]}' % ns) \
+                    if hist['edit'] == 'reference-type' else \
+                    '{"eClass": "%s#//A", "name": 7, "kids": [{"name": 8}]}' % ns
+            for name, text in (('bad.' + fmt, bad), ('good.' + fmt, good)):
+                with open(os.path.join(d, name), 'w') as f:
+                    f.write(text)
+            failed = None
+            if with_failure:
+                try:
+                    watchdog(lambda: rset().get_resource(URI(os.path.join(d, 'bad.' + fmt))), 5.0)
+                    failed = False
+                except Hang:
+                    return ('hang', None, None)
+                except Exception:
+                    failed = True
+            # the legal edit: same names, other meaning
+            if hist['edit'] == 'attribute-type':
+                A.eStructuralFeatures.remove(A.findEStructuralFeature('name'))
+                A.eStructuralFeatures.append(EAttribute('name', EInt))
+            else:
+                A.eStructuralFeatures.remove(A.findEStructuralFeature('ref'))
+                A.eStructuralFeatures.append(EReference('ref', B))
+            try:
+                r = watchdog(lambda: rset().get_resource(URI(os.path.join(d, 'good.' + fmt))), 5.0)
+                root = r.contents[0]
+                ref = root.ref
+                seen = ('returned', repr(root.name), [repr(x.name) for x in root.kids],
+                        None if ref is None else ref.eClass.name)
+            except Hang:
+                seen = ('hang',)
+            except Exception as e:
+                seen = ('raised', type(e).__name__)
+            return seen, failed, None
+        with tempfile.TemporaryDirectory(dir=scratch) as d1, tempfile.TemporaryDirectory(dir=scratch) as d2:
+            twin, _, _ = history(False, d1)
+            got, failed, _ = history(True, d2)
+            n += 1
+            if failed and got != twin:
+                out.fail(sig('later-load-affected', fmt, 'metamodel-edited-after-failed-load', 'fresh-rset'),
+                         f'after a failed load ({hist["bad"]}) and a legal edit of the metamodel ({hist["edit"]}) a document '
+                         f'valid for the new metamodel is answered {got}; without the failed load before: {twin}', case)
+    out.coverage['metamodel_edit_after_failed_load_scenarios'] = n
+
+
 def run(ctx, out):
     common.use_repo()
+    metaedit_scenarios(ctx, out)
     thorough = ctx.tier == 'thorough'
     rng = ctx.rng
     scratch = os.path.join(common.BUILD, 'scratch')
@@ -1574,6 +1666,8 @@ def run(ctx, out):
 def replay(ctx, rep):
     common.use_repo()
     case = rep['case']
+    if case.get('scenario') == 'metaedit':
+        return common.scenario_replay(ctx, rep, {'metaedit': metaedit_scenarios})
     scratch = os.path.join(common.BUILD, 'scratch')
     os.makedirs(scratch, exist_ok=True)
     files = {k: base64.b64decode(v) for k, v in case['files'].items()}
